@@ -50,7 +50,7 @@ func (unpacker *RtpUnpackerAvcHevc) TryUnpackOne(list *RtpPacketList) (unpackedF
 	case PositionTypeSingle:
 		var pkt base.AvPacket
 		pkt.PayloadType = unpacker.payloadType
-		pkt.Timestamp = int64(first.Packet.Header.Timestamp / uint32(unpacker.clockRate/1000))
+		pkt.Timestamp = rtpTimestamp2Ms(first.Packet.Header.Timestamp, unpacker.clockRate)
 
 		pkt.Payload = make([]byte, len(first.Packet.Body())+4)
 		bele.BePutUint32(pkt.Payload, uint32(len(first.Packet.Body())))
@@ -71,7 +71,7 @@ func (unpacker *RtpUnpackerAvcHevc) TryUnpackOne(list *RtpPacketList) (unpackedF
 
 		var pkt base.AvPacket
 		pkt.PayloadType = unpacker.payloadType
-		pkt.Timestamp = int64(first.Packet.Header.Timestamp / uint32(unpacker.clockRate/1000))
+		pkt.Timestamp = rtpTimestamp2Ms(first.Packet.Header.Timestamp, unpacker.clockRate)
 
 		// 跳过前面的字节，并且将多nalu前的2字节长度，替换成4字节长度
 		// skip后：
@@ -125,7 +125,7 @@ func (unpacker *RtpUnpackerAvcHevc) TryUnpackOne(list *RtpPacketList) (unpackedF
 			} else if p.Packet.positionType == PositionTypeFuaEnd {
 				var pkt base.AvPacket
 				pkt.PayloadType = unpacker.payloadType
-				pkt.Timestamp = int64(p.Packet.Header.Timestamp / uint32(unpacker.clockRate/1000))
+				pkt.Timestamp = rtpTimestamp2Ms(p.Packet.Header.Timestamp, unpacker.clockRate)
 
 				var naluTypeLen int
 				var naluType []byte
@@ -228,7 +228,7 @@ func calcPositionIfNeededAvc(pkt *RtpPacket) {
 	if outerNaluType <= NaluTypeAvcSingleMax {
 		pkt.positionType = PositionTypeSingle
 		return
-	} else if outerNaluType == NaluTypeAvcFua {
+	} else if outerNaluType == NaluTypeAvcFua && len(b) >= 2 {
 
 		// rfc3984 5.8.  Fragmentation Units (FUs)
 		//
@@ -302,7 +302,7 @@ func calcPositionIfNeededHevc(pkt *RtpPacket) {
 		return
 	}
 
-	if outerNaluType == NaluTypeHevcFua {
+	if outerNaluType == NaluTypeHevcFua && len(b) >= 3 {
 		// Figure 1: The Structure of the HEVC NAL Unit Header
 
 		// 0                   1                   2                   3
@@ -343,7 +343,7 @@ func calcPositionIfNeededHevc(pkt *RtpPacket) {
 
 		pkt.positionType = PositionTypeFuaMiddle
 		return
-	} else if outerNaluType == NaluTypeHevcAp {
+	} else if outerNaluType == NaluTypeHevcAp && len(b) >= 2 {
 		pkt.positionType = PositionTypeAp
 		return
 	}
